@@ -45,6 +45,15 @@ def run(prog, rep, tier='quick'):
         ({'threshold': C.deg0()}, 8, True, 'threshold only'),
         ({}, 8, True, 'neither'),
     ]
+    def npint(v_):
+        c_ = Const(v_)
+        c_.npint = True          # a numpy integer scalar: what argmin() + 1 or mask.sum() hands over
+        return c_
+    CASES += [
+        ({'NSIG': npint(-1)}, 8, False, 'NSIG < 0 (numpy integer)'),
+        ({'NSIG': npint(8)}, 8, False, 'NSIG == P (numpy integer)'),
+        ({'NSIG': npint(3)}, 8, True, 'NSIG = 3 (numpy integer)'),
+    ]
     for kw, P, want, label in CASES:
         kw = dict(kw)
         kw.setdefault('NFFT', nf())
